@@ -3,14 +3,14 @@
    Models: Io/Csv.v (Python's csv module, excel dialect, as Modules/_csv.c; io newline
    translation; tablib import/export), Io/Sanitize.v (XLSXSheetReader._sanitize, Dataset.dict
    getter/setter, the three workbook readers).  Facts: Io/IoFacts.v, Io/SanitizeFacts.v,
-   Io/JsonTableFacts.v, Io/AgreeFacts.v.  openpyxl and json are not modelled: they are the
+   Io/JsonTableFacts.v, Io/AgreeFacts.v, Io/ShapeFacts.v (part 6).  openpyxl and json are not modelled: they are the
    universally quantified functions with one premise each in part 4.
    How a tree treats rows without content and sheets without rows is PROBED (Io/TreeFlags.v:
    tree_flags, from Gen/Tables.v); the facts are proved for arbitrary flags [fl] and the statements
    over the property's whole domain are DECIDED by the flags (part 5). *)
 From Coq Require Import List NArith Bool.
 From RPFT Require Import Base.Sexp Base.PyStr Base.Result Gen.Tables Io.Csv Io.Sanitize Io.TreeFlags
-  Io.IoFacts Io.SanitizeFacts Io.JsonTableFacts Io.AgreeFacts.
+  Io.IoFacts Io.SanitizeFacts Io.JsonTableFacts Io.AgreeFacts Io.ShapeFacts.
 Import ListNotations.
 Local Open Scope N_scope.
 
@@ -362,3 +362,65 @@ Theorem C14_convert_header_only_witness :
     (if rf_tojson_table fl then (if rf_json_table fl then Ok wb else Err EFormat) else Ok [([115], empty_table)]).
 Proof. exact header_only_witness. Qed.
 Print Assumptions C14_convert_header_only_witness.
+
+(* ------------------------------------------------------------------ 6. the shape of a sheet *)
+
+(* None of the statements above bounds the number of rows, columns or sheets.  Said explicitly for the one thing a
+   reader could treat by SIZE — rows without content: two workbooks of the property's domain with the same sheet names,
+   headers and rows WITH content (however many rows without content each has, and wherever they stand: a run of 1000
+   between two blocks, content far below the header, a long tail) are read alike by every format, and what is read is
+   the content.  (On a tree whose readers all omit such rows; for any flags [fl] with both repairs.) *)
+Theorem C14_blank_rows_do_not_matter :
+  forall (X J : Type) (xl_write : workbook (table str str) -> X) (xl_load : X -> workbook (list (list xcell)))
+         (json_dumps : workbook jsheet -> J) (json_loads : J -> workbook jsheet),
+  (forall wb, xl_load (xl_write wb) = wb_map xl_grid wb) ->
+  (forall b, json_loads (json_dumps b) = b) ->
+  forall (fl : reader_flags) (translated : bool) (wb wb' : workbook (table str str)),
+  flags_repaired fl = true ->
+  Forall (fun p => in_property_domain (snd p)) wb -> Forall (fun p => in_property_domain (snd p)) wb' ->
+  Forall2 (fun p p' => fst p = fst p' /\ hdr (snd p) = hdr (snd p') /\
+                       filter keep_row (rws (snd p)) = filter keep_row (rws (snd p'))) wb wb' ->
+  via_csv fl translated wb = via_csv fl translated wb' /\
+  via_xlsx X xl_write xl_load wb = via_xlsx X xl_write xl_load wb' /\
+  via_json J json_dumps json_loads fl translated wb = via_json J json_dumps json_loads fl translated wb' /\
+  via_json_direct J json_dumps json_loads fl wb = via_json_direct J json_dumps json_loads fl wb' /\
+  via_csv fl translated wb' = Ok (wb_map drop_empty_rows wb) /\
+  via_xlsx X xl_write xl_load wb' = Ok (wb_map lift_table (wb_map drop_empty_rows wb)).
+Proof. exact blank_rows_do_not_matter. Qed.
+Print Assumptions C14_blank_rows_do_not_matter.
+
+(* in particular a run of n rows without content in front of row k of each sheet (g name = (k, n); ANY n: 1000 and 1
+   alike) is not seen by any reader *)
+Theorem C14_blank_run_any_length :
+  forall (X J : Type) (xl_write : workbook (table str str) -> X) (xl_load : X -> workbook (list (list xcell)))
+         (json_dumps : workbook jsheet -> J) (json_loads : J -> workbook jsheet),
+  (forall wb, xl_load (xl_write wb) = wb_map xl_grid wb) ->
+  (forall b, json_loads (json_dumps b) = b) ->
+  forall (fl : reader_flags) (translated : bool) (g : str -> nat * nat) (wb : workbook (table str str)),
+  flags_repaired fl = true -> Forall (fun p => in_property_domain (snd p)) wb ->
+  let gapped := map (fun p => (fst p, mkT (hdr (snd p))
+                       (firstn (fst (g (fst p))) (rws (snd p))
+                        ++ repeat (repeat [] (length (hdr (snd p)))) (snd (g (fst p)))
+                        ++ skipn (fst (g (fst p))) (rws (snd p))))) wb in
+  via_csv fl translated gapped = via_csv fl translated wb /\
+  via_xlsx X xl_write xl_load gapped = via_xlsx X xl_write xl_load wb /\
+  via_json J json_dumps json_loads fl translated gapped = via_json J json_dumps json_loads fl translated wb /\
+  via_json_direct J json_dumps json_loads fl gapped = via_json_direct J json_dumps json_loads fl wb.
+Proof. exact blank_run_any_length. Qed.
+Print Assumptions C14_blank_run_any_length.
+
+(* sheet "s", headers a, b: a row with content, 1200 rows without, a row with content *)
+Example C14_blank_run_nonvacuous :
+  let xl_write := wb_map xl_grid in
+  let xl_load := fun x : workbook (list (list xcell)) => x in
+  let dumps := fun b : workbook jsheet => b in
+  let loads := fun b : workbook jsheet => b in
+  Forall (fun p => in_property_domain (snd p)) ex_gap_wb /\
+  (exists t, ex_gap_wb = [([115], t)] /\ length (rws t) = 1202%nat /\ nth 1200%nat (rws t) [] = blank_row 2
+             /\ nth 1201%nat (rws t) [] = [[]; [121; 44; 122]]) /\
+  via_csv (flags_all true) load_csv_translated ex_gap_wb = Ok ex_gap_base /\
+  via_xlsx _ xl_write xl_load ex_gap_wb = Ok (wb_map lift_table ex_gap_base) /\
+  via_json _ dumps loads (flags_all true) load_csv_translated ex_gap_wb = Ok ex_gap_base /\
+  via_json_direct _ dumps loads (flags_all true) ex_gap_wb = Ok ex_gap_base.
+Proof. exact blank_run_nonvacuous. Qed.
+Print Assumptions C14_blank_run_nonvacuous.
